@@ -27,10 +27,12 @@ def hook_discrete(sem, io):
     def hook(f, left, right, dflt):
         if not insensitive(f, sem, io):
             return dflt
+        # where the numeric robustness itself is NaN (inf-inf between operands) the truth value may be
+        # computed either from the operands or from their difference: don't-care
         if sem.endswith('vacuity'):
-            return [0.0 if (a == a and b == b) else float('nan') for a, b in zip(left, right)]
+            return [0.0 if d == d else float('nan') for d in dflt]
         fn = ref_bool.HOLDS[f[0]]
-        return [(INF if fn(a, b) else -INF) if (a == a and b == b) else float('nan') for a, b in zip(left, right)]
+        return [(INF if fn(a, b) else -INF) if d == d else float('nan') for a, b, d in zip(left, right, dflt)]
     return hook
 
 
@@ -39,10 +41,10 @@ def hook_dense(sem, io):
         if not insensitive(f, sem, io):
             return dflt
         if sem.endswith('vacuity'):
-            return ref_dense.pointwise(lambda a, b: 0.0 if (a == a and b == b) else float('nan'), left, right)
+            return ref_dense.pointwise(lambda a, b, d: 0.0 if d == d else float('nan'), left, right, dflt)
         fn = ref_bool.HOLDS[f[0]]
-        return ref_dense.pointwise(lambda a, b: (INF if fn(a, b) else -INF) if (a == a and b == b) else float('nan'),
-                                   left, right)
+        return ref_dense.pointwise(lambda a, b, d: (INF if fn(a, b) else -INF) if d == d else float('nan'),
+                                   left, right, dflt)
     return hook
 
 
